@@ -163,7 +163,7 @@ theorem skel_Channel0__close_connection : Gen.Skel.Channel0__close_connection =
     "call:_set_connection_state"] := by decide
 
 theorem skel_Channel__basic_return : Gen.Skel.Channel__basic_return =
-  ["r:exceptions", "call:exceptions.append"] := by decide
+  ["r:exceptions", "call:exceptions.append", "w:_returned_content_left"] := by decide
 
 theorem skel_Channel_check_for_errors : Gen.Skel.Channel_check_for_errors =
   ["r:is_closed", "try", "call:_connection.check_for_errors", "except:AMQPConnectionError",
@@ -171,8 +171,8 @@ theorem skel_Channel_check_for_errors : Gen.Skel.Channel_check_for_errors =
     "raise:AMQPChannelError", "endif"] := by decide
 
 theorem skel_Channel_check_for_exceptions : Gen.Skel.Channel_check_for_exceptions =
-  ["if", "r:exceptions", "then", "r:exceptions", "if", "r:is_open", "then", "r:exceptions",
-    "call:exceptions.pop", "endif", "raise:exception", "endif"] := by decide
+  ["try", "if", "r:is_open", "then", "r:exceptions", "call:exceptions.pop", "else",
+    "r:exceptions", "endif", "except:IndexError", "return", "endtry", "raise:exception"] := by decide
 
 theorem skel_Connection_check_for_errors : Gen.Skel.Connection_check_for_errors =
   ["if", "r:exceptions", "then", "if", "r:is_closed", "then", "return", "endif",
